@@ -374,11 +374,28 @@ func allDescriptorSpecs(c *layout.Checker) []*layout.Source {
 		b.Const(4, 0xf).Const(12, 0).ListLen("$ds", 0)
 		out = append(out, b.Source())
 	}
+	out = append(out, longLoopSpecs(c)...)
 	{
 		b := c.NewSpec("loop of two descriptors: stream identifier, data stream alignment")
 		b.Const(4, 0xf).LengthOfRest(12).ListLen("$ds", 2)
 		oneDescriptor(b, 0, 0x52, func(b *layout.SpecBuilder, d string) { b.Field(8, d+"/StreamIdentifier.ComponentTag") })
 		oneDescriptor(b, 1, 0x06, func(b *layout.SpecBuilder, d string) { b.Field(8, d+"/DataStreamAlignment.Type") })
+		out = append(out, b.Source())
+	}
+	return out
+}
+
+// longLoopSpecs: descriptor loops longer than 1023 and 2047 bytes (legal in SDT, NIT, EIT and TOT sections, whose
+// descriptors_loop_length is a full 12-bit field): 4 and 9 user defined descriptors of 255 body bytes each, i.e. loop
+// lengths 0x404 and 0x909 — every one of the four high bits of the length is set in one of them.
+func longLoopSpecs(c *layout.Checker) []*layout.Source {
+	var out []*layout.Source
+	for _, n := range []int{4, 9} {
+		b := c.NewSpec(fmt.Sprintf("loop of %d user defined descriptors of 255 bytes (%d bytes)", n, n*257))
+		b.Const(4, 0xf).LengthOfRest(12).ListLen("$ds", n)
+		for k := 0; k < n; k++ {
+			oneDescriptor(b, k, 0x80, func(b *layout.SpecBuilder, d string) { b.BlobN(d+".UserDefined", 255) })
+		}
 		out = append(out, b.Source())
 	}
 	return out
